@@ -152,6 +152,11 @@ func extractNonStringParts(line string) []linePart {
 			continue
 		}
 
+		// A line comment runs to the end of the line; its content is not code
+		if ch == '-' && strings.HasPrefix(line[i:], "--") {
+			break
+		}
+
 		if currentPart.Len() == 0 {
 			partStart = i
 		}
@@ -212,7 +217,7 @@ func (r *RedundantWhitespaceRule) fixLine(line string) string {
 	stringChar := rune(0)
 	prevSpace := false
 
-	for _, ch := range trimmed {
+	for i, ch := range trimmed {
 		if !inString && (ch == '\'' || ch == '"') {
 			inString = true
 			stringChar = ch
@@ -228,6 +233,12 @@ func (r *RedundantWhitespaceRule) fixLine(line string) string {
 				stringChar = 0
 			}
 			continue
+		}
+
+		// A line comment keeps its exact content
+		if ch == '-' && strings.HasPrefix(trimmed[i:], "--") {
+			result.WriteString(trimmed[i:])
+			break
 		}
 
 		// Reduce multiple spaces to single space
